@@ -139,10 +139,26 @@ theorem C15_scan_out_of_range_is_error (round32 : UInt64 → UInt64) (rep : Term
     (hk : k.bits ≠ 64) (hv : ¬ InRange k.bits v) : conv true round32 rep (.int k) (.int v) = .error () := by
   simp [conv, hk, hv]
 
-/-- `float32` (not among the destination types of the property): the stored value is `float32(x)`, which
-    is the answer's value exactly when x is representable in single precision — recorded, not claimed -/
-theorem C15_scan_float32_rounds (fixed : Bool) (round32 : UInt64 → UInt64) (rep : Term → Bool) (b : UInt64) :
-    conv fixed round32 rep .float32 (.flt b) = .ok (.float (round32 b)) := by
+/-- `float32` destinations (not among the destination types the property names; they cannot hold every
+    answer exactly): what is stored is `float32(x)` — the nearest single-precision value, `round32` — and,
+    on the repaired tree (D20), never an infinity for a finite answer: overflow is the conversion error. -/
+theorem C15_scan_float32_rounds (round32 : UInt64 → UInt64) (rep : Term → Bool) (b : UInt64) (v : GoVal)
+    (h : conv true round32 rep .float32 (.flt b) = .ok v) :
+    v = .float (round32 b) ∧ (isInfBits (round32 b) = true → isInfBits b = true) := by
+  simp only [conv] at h
+  split at h
+  · simp at h
+  · rename_i hc
+    simp at h; subst h
+    refine ⟨rfl, fun hi => ?_⟩
+    cases hb : isInfBits b with
+    | true => rfl
+    | false => exact absurd (by simp [hi, hb]) hc
+
+/-- **D20 on the pinned tree**: no check at all — whatever `float32(x)` is gets stored, also ±Inf for a finite x
+    (observed on the real code: 1.0e300 → +Inf) -/
+theorem C15_scan_float32_pinned_witness (round32 : UInt64 → UInt64) (rep : Term → Bool) (b : UInt64) :
+    conv false round32 rep .float32 (.flt b) = .ok (.float (round32 b)) := by
   simp [conv]
 
 /-- unsigned kinds, bool, arrays …: always the conversion error, nothing is stored -/
